@@ -22,7 +22,8 @@ func c16(p Params) func() {
 		var trace []string
 		rec := NewRec("rec", &trace)
 		checkerRuns := 0
-		verdicts := []string{"accept", "reject", "reject_with_ret"}
+		// accept_any: a checker that trusts any exchange RecvOnce reports as received (it does not look at the token)
+		verdicts := []string{"accept", "reject", "reject_with_ret", "accept_any"}
 		verdict := verdicts[vsched.Choose(len(verdicts), "verdict")]
 		renames := vsched.Choose(2, "setid") == 1
 		checker := auth.NewCheckerPlugin(func(sess auth.Session, recv auth.RecvOnce) (interface{}, *erpc.Status) {
@@ -34,6 +35,9 @@ func c16(p Params) func() {
 			if renames {
 				// checkers commonly name the session after the claimed identity before they verify it
 				sess.SetID("user-7")
+			}
+			if verdict == "accept_any" {
+				return "welcome", nil
 			}
 			if token != "good" {
 				return nil, erpc.NewStatus(erpc.CodeUnauthorized, "bad token", "")
@@ -75,6 +79,7 @@ func c16(p Params) func() {
 			{"auth_reply", enc(world.Frame{Seq: 1, Mtype: erpc.TypeAuthReply, Codec: 'j', Body: []byte(`"good"`)})},
 			{"type9", enc(world.Frame{Seq: 1, Mtype: 9, Codec: 'j', Body: []byte(`"good"`)})},
 			{"garbage", []byte("GET / HTTP/1.1\r\n\r\n")},
+			{"zero_frame", []byte{0, 0, 0, 0}},
 			{"prefix", nil},
 			{"nothing", nil},
 		}
@@ -148,6 +153,10 @@ func c16(p Params) func() {
 		vsched.Join(acceptor)
 		vsched.Quiesce()
 		accepted := first.name == "auth_good" && verdict == "accept"
+		if verdict == "accept_any" {
+			// any well-formed AUTH_CALL whose body reaches the checker is accepted
+			accepted = first.name == "auth_good" || first.name == "auth_bad"
+		}
 		if viaListener {
 			// the accept loop returns nothing: reconstruct its outcome from the index
 			srv.RangeSession(func(s erpc.Session) bool { sess = s; return false })
